@@ -50,34 +50,34 @@ mem: 14
 */
 /*@unit
 name: table.rem_var.shape
-define: U_REM, MEM_PART=1, VERIF_MEMHASH_REALLOC_ELEM_T=spifmem_ptr_t
+define: U_REM, MEM_PART=1, VERIF_MEMHASH_REALLOC_ELEM_T=spifmem_ptr_t, VERIF_MEMHASH_MEMMOVE_MODEL
 debug: 5
 src: mem.c
 enforce: memrec_rem_var
-replace: memrec_find_var
-backend: z3,sat
+backend: sat
+loops: 1
 timeout: 280
 mem: 14
 */
 /*@unit
 name: table.rem_var.records
-define: U_REM, MEM_PART=2, VERIF_MEMHASH_REALLOC_ELEM_T=spifmem_ptr_t
+define: U_REM, MEM_PART=2, VERIF_MEMHASH_REALLOC_ELEM_T=spifmem_ptr_t, VERIF_MEMHASH_MEMMOVE_MODEL
 debug: 5
 src: mem.c
 enforce: memrec_rem_var
-replace: memrec_find_var
-backend: z3,sat
+backend: sat
+loops: 1
 timeout: 280
 mem: 14
 */
 /*@unit
 name: table.rem_var.nodup
-define: U_REM, MEM_PART=3, VERIF_MEMHASH_REALLOC_ELEM_T=spifmem_ptr_t
+define: U_REM, MEM_PART=3, VERIF_MEMHASH_REALLOC_ELEM_T=spifmem_ptr_t, VERIF_MEMHASH_MEMMOVE_MODEL
 debug: 5
 src: mem.c
 enforce: memrec_rem_var
-replace: memrec_find_var
-backend: z3,sat
+backend: sat
+loops: 1
 timeout: 280
 mem: 14
 */
@@ -87,8 +87,8 @@ define: U_CHG, MEM_PART=1, VERIF_MEMHASH_STRNCPY_MODEL
 debug: 5
 src: mem.c
 enforce: memrec_chg_var
-replace: memrec_find_var
 backend: sat
+loops: 1
 timeout: 280
 mem: 14
 */
@@ -98,8 +98,8 @@ define: U_CHG, MEM_PART=2, VERIF_MEMHASH_STRNCPY_MODEL
 debug: 5
 src: mem.c
 enforce: memrec_chg_var
-replace: memrec_find_var
 backend: sat
+loops: 1
 timeout: 280
 mem: 14
 */
@@ -109,8 +109,8 @@ define: U_CHG, MEM_PART=3, VERIF_MEMHASH_STRNCPY_MODEL
 debug: 5
 src: mem.c
 enforce: memrec_chg_var
-replace: memrec_find_var
 backend: sat
+loops: 1
 timeout: 280
 mem: 14
 */
